@@ -126,8 +126,9 @@ def run_check(a, prop, spec, workdir, seed, t_start):
         for g in groups:
             h = os.path.join(VERIF, 'harness', prop, g['harness'])
             extra = [os.path.join(VERIF, 'harness', prop, x) if not x.startswith('/') else x for x in g.get('extra_cpp', [])]
+            nat_extra = extra + [os.path.join(VERIF, 'env', x) for x in g.get('native_extra', getattr(spec, 'NATIVE_EXTRA', []))]
             futs.append((g, 'ir', ex.submit(build.build_ir, workdir + '/ir_' + g['name'], g['sources'], h, g.get('env', ['vlibc.c']), extra, g.get('defines', []))))
-            futs.append((g, 'nat', ex.submit(build.build_native, workdir + '/nat_' + g['name'], g['sources'], h, extra, g.get('defines', []))))
+            futs.append((g, 'nat', ex.submit(build.build_native, workdir + '/nat_' + g['name'], g['sources'], h, nat_extra, g.get('defines', []))))
         for g, k, f in futs:
             g[k] = f.result()
     for g in groups:
